@@ -281,7 +281,24 @@ def corpus_trees():
         ("k", ("a", a, ("t", a, b))),                                # (a|ab)*
         ("c", 300),                                                  # outside SIGMA
     ]
-    return out
+    # shapes whose derivatives are alternations `r s | s` (an independently seeded change dropped the second alternative)
+    dig0 = ("c", 48)
+    for p_, q_, r_ in ((a, a, a), (a, b, a), (b, a, b), (a, b, b)):
+        out += [
+            ("t", ("q", p_), ("p", q_)),                 # p?q+
+            ("t", ("q", p_), ("k", q_)),                 # p?q*
+            ("t", ("q", ("t", p_, q_)), ("k", r_)),      # (pq)?r*
+            ("t", ("k", ("t", p_, q_)), ("k", r_)),      # (pq)*r*
+            ("a", ("p", p_), ("k", p_)),                 # p+|p*
+            ("a", ("t", p_, ("k", q_)), ("k", q_)),      # pq*|q*
+        ]
+    out += [("t", ("q", dig0), ("p", dig)), ("t", ("q", ("t", dig0, ("c", 120))), ("k", ("s", [(48, 57), (A, 102)])))]   # 0?[0-9]+  (0x)?[0-9a-f]*
+    seen, uniq = set(), []
+    for t in out:
+        if str(t) not in seen:
+            seen.add(str(t))
+            uniq.append(t)
+    return uniq
 
 
 def parser_texts(ctx):
@@ -297,6 +314,132 @@ def parser_texts(ctx):
     for _ in range(20000 if ctx.thorough else 2500):
         out.append("".join(ctx.rng.choice(al) for _ in range(ctx.rng.randint(1, 9))))
     return out
+
+
+def re_to_syn(e):
+    """a syntax tree that denotes the same language as a real Regex object (None when the surface
+    syntax cannot express it: NULL, a bare EPSILON operand, LogicalAnd)"""
+    n = type(e).__name__
+    if n == "SymbolSet":
+        rs = list(e.symbols.ranges)
+        if not rs:
+            return None
+        return ("c", rs[0][0]) if len(rs) == 1 and rs[0][0] == rs[0][1] else ("s", [tuple(r) for r in rs])
+    if n == "Kleene":
+        x = re_to_syn(e.expr)
+        return x and ("k", x)
+    if n == "LogicalOr":
+        if type(e.rhs).__name__ == "Epsilon":
+            x = re_to_syn(e.lhs)
+            return x and ("q", x)
+        if type(e.lhs).__name__ == "Epsilon":
+            x = re_to_syn(e.rhs)
+            return x and ("q", x)
+    if n in ("Concatenation", "LogicalOr"):
+        l, r = re_to_syn(e.lhs), re_to_syn(e.rhs)
+        return l and r and (("t" if n == "Concatenation" else "a"), l, r)
+    return None
+
+
+def concat_bits(strs, bx, by):
+    X = {w for w, c in zip(strs, bx) if c == "1"}
+    Y = {w for w, c in zip(strs, by) if c == "1"}
+    return "".join("1" if any(w[:i] in X and w[i:] in Y for i in range(len(w) + 1)) else "0" for w in strs)
+
+
+SMART = {"O": ("logical_or", "union"), "A": ("logical_and", "intersection"), "C": ("concatenate", "concatenation")}
+PAL, PLEN = (A, B), 6     # strings for the property of single operator calls
+
+
+def job_reqs(jobs):
+    out = []
+    for key, e, se, al, n, t in jobs:
+        alst = "[" + ",".join(map(str, al)) + "]"
+        out.append(f"auto {FUEL} {se} {n} {alst}")
+        out.append(f"langmany {se} {n} {alst}")
+        out.append(f"specmany {syn_enc(t)} {n} {alst}" if t is not None else f"langmany {se} {n} {alst}")
+    return out
+
+
+def eval_jobs(ctx, R, jobs, out):
+    """the property on the real code for every job; `out` = driver replies to job_reqs(jobs)"""
+    k = 0
+    for key, e, se, al, n, t in jobs:
+        m_auto, m_lang, m_spec = out[k:k + 3]
+        k += 3
+        if m_auto.startswith("ok "):
+            m_compile, m_acc, m_scan = m_auto.split(" | ")
+            m_acc, m_scan = "ok " + m_acc, "ok " + m_scan
+        else:
+            m_compile = m_acc = m_scan = m_auto
+        strs = all_strings(al, n)
+        diverges = m_compile == "err Fuel"
+        pr = attempt(R.compile, e, limit=FAST if diverges else SLOW)
+        ctx.count("eval_compile")
+        if nops(t) >= 2 if t is not None else True:
+            ctx.nontrivial("compile " + key)
+        i_compile = "ok " + show_prog(pr[1]) if pr[0] == "ok" else "err " + ("Fuel" if pr[1] in NORETURN else pr[1])
+        if i_compile != m_compile:
+            ctx.disagree("compile", key, i_compile[:300], m_compile[:300])
+        # the Lean specification of the tree vs. re.fullmatch (spec validation) and vs. the parsed object
+        spec_bits = m_spec[3:]
+        if t is not None:
+            rp = pyre.compile(re_render(t), pyre.S)
+            try:   # CPython's backtracking matcher explodes on nested loops such as (((a*)+)+)+
+                with time_limit(1.0):
+                    ref = "".join("1" if rp.fullmatch(s) else "0" for s in strs)
+                ctx.count("eval_spec_vs_re", len(strs))
+            except Budget:
+                ref = spec_bits
+                ctx.count("re_fullmatch_gave_up_backtracking")
+            if ref != spec_bits:
+                j = next(i for i in range(len(strs)) if ref[i] != spec_bits[i:i + 1])
+                ctx.disagree("spec-vs-re.fullmatch", {"tree": syn_enc(t), "string": strs[j]}, ref[j], spec_bits[j:j + 1])
+            if m_lang[3:] != spec_bits:
+                j = next(i for i in range(len(strs)) if m_lang[3 + i] != spec_bits[i])
+                ctx.fail("parse:language-differs-from-standard-reading",
+                         f"parse({key!r}) = {se} does not denote the standard language of the expression (string {strs[j]!r}; the parser or a smart constructor it calls)",
+                         key, string=strs[j], parsed=se)
+                continue
+        lang = {s: c == "1" for s, c in zip(strs, spec_bits)}
+        if pr[0] != "ok":
+            if pr[1] in NORETURN:
+                ctx.fail("compile:does-not-return", f"compile({key!r}) does not return ({pr[1]})", key, how=pr[1])
+                ctx.nontrivial("noreturn " + key)
+            else:
+                ctx.fail(f"compile:raises-{pr[1]}", f"compile({key!r}) raised {pr[1]}", key)
+            continue
+        prog = pr[1]
+        bits = []
+        for s in strs:
+            try:
+                bits.append("1" if dfa_accepts(R, prog, s) else "0")
+            except Exception as ex:  # noqa
+                bits.append("R")
+                ctx.fail(f"accept:raises-{type(ex).__name__}", f"running the tables of {key!r} on {s!r} raised {type(ex).__name__}", key, string=s)
+        bits = "".join(bits)
+        ctx.count("eval_accept", len(strs))
+        if m_acc.startswith("ok") and bits != m_acc[3:]:
+            ctx.disagree("accepts", key, bits[:200], m_acc[3:203])
+        if bits != spec_bits:
+            j = next(i for i in range(len(strs)) if bits[i] != spec_bits[i:i + 1])
+            ctx.fail("accept:automaton-differs-from-language",
+                     f"compile({key!r}) {'accepts' if bits[j] == '1' else ('rejects' if bits[j] == '0' else 'fails on')} {strs[j]!r}, the expression does {'' if spec_bits[j] == '1' else 'not '}denote it",
+                     key, string=strs[j])
+        # scanner
+        sc_model = m_scan[3:].split(" ") if m_scan.startswith("ok") else None
+        for j, s in enumerate(strs):
+            tk, end = run_scan(R.scan(prog, s), s)
+            ctx.count("eval_scan")
+            got = show_scan(tk, end)
+            if sc_model is not None and got != sc_model[j]:
+                ctx.disagree("scan", {"regex": key, "text": s}, got, sc_model[j])
+            want = munch_oracle(lambda w: lang.get(w, False), s)
+            if (tk, end) != want:
+                sig = "scan:endless-empty-tokens" if end == "Endless" else ("scan:not-maximal-munch" if end in ("done", "ValueError") else f"scan:raises-{end}")
+                ctx.fail(sig, f"scan(compile({key!r}), {s!r}) = {tk} {end}, maximal munch gives {want[0]} {want[1]}", {"regex": key, "text": s})
+                break
+    return k
 
 
 # --------------------------------------------------------------------------- the check
@@ -317,12 +460,13 @@ def check(ctx):
         work.append((rand_tree(ctx.rng, ctx.rng.randint(5, 9), leaves), (A, B, C), 4))
 
     # ---- pass 1: parse on both sides, expression-level operations -----------------------
-    reqs, expect, meta = [], [], []
+    reqs, expect, meta, objs = [], [], [], []
 
-    def ask(line, impl, what, case):
+    def ask(line, impl, what, case, obj=None):
         reqs.append(line)
         expect.append(impl)
         meta.append((what, case))
+        objs.append(obj)
 
     parsed = []
     for t, al, n in work:
@@ -352,7 +496,7 @@ def check(ctx):
                 ask(f"classes {sx}", "ok " + ";".join(show_set(s) for s in cl[1]) if cl[0] == "ok" else "err " + cl[1], "classes", sx)
                 for c in (A, B, C, 0, 255, 256):
                     dx = x.derivative(c)
-                    ask(f"deriv {sx} {c}", "ok " + show_re(dx), "deriv", (sx, c))
+                    ask(f"deriv {sx} {c}", "ok " + show_re(dx), "deriv", (sx, c), (x, c, dx))
                     if c in (A, B):
                         nxt.append(dx)
             todo = nxt
@@ -361,12 +505,25 @@ def check(ctx):
     pool = [R.EPSILON, R.NULL, RX.SIGMA, R.Symbol("a"), R.Symbol("b"), R.SymbolSet([(A, C)]), R.Kleene(R.Symbol("a")),
             R.Symbol("a") + R.Symbol("b"), R.Symbol("a") | R.EPSILON, (R.Symbol("a") + R.Symbol("b")) & R.Kleene(RX.SIGMA)]
     pool += [p[1] for p in parsed[:40] if p[0] == "ok"]
-    api = []
-    for _ in range(1500 if ctx.thorough else 300):
-        x, y = ctx.rng.choice(pool), ctx.rng.choice(pool)
-        op = ctx.rng.choice("OAC")
+    api, smart_calls = [], []
+    # fixed part: absorption-like shapes  (x y) op y,  y op (x y),  (x|y) op y  over a small base
+    sa, sb = R.Symbol("a"), R.Symbol("b")
+    basis = [R.EPSILON, sa, sb, R.Kleene(sa), R.Kleene(sb), sa | R.EPSILON, sa + sb]
+    fixed_calls = []
+    for x0 in basis:
+        for y0 in basis:
+            fixed_calls += [("O", x0 + y0, y0), ("O", y0, x0 + y0), ("A", x0 + y0, y0), ("O", x0 | y0, y0), ("C", x0 | y0, y0)]
+    n_random = 1500 if ctx.thorough else 300
+    for it in range(len(fixed_calls) + n_random):
+        if it < len(fixed_calls):
+            op, x, y = fixed_calls[it]
+        else:
+            x, y = ctx.rng.choice(pool), ctx.rng.choice(pool)
+            op = ctx.rng.choice("OAC")
         z = {"O": lambda: x | y, "A": lambda: x & y, "C": lambda: x + y}[op]()
-        ask(f"smart {op} {show_re(x)} {show_re(y)}", "ok " + show_re(z), "smart", (op, show_re(x), show_re(y)))
+        ask(f"smart {op} {show_re(x)} {show_re(y)}", "ok " + show_re(z), "smart", (op, show_re(x), show_re(y)), (op, x, y, z))
+        if len(show_re(z)) <= 160:
+            smart_calls.append((op, x, y, z))
         if len(show_re(z)) < 300 and len(pool) < 200:
             pool.append(z)
         if op == "A" and len(api) < (60 if ctx.thorough else 15) and type(z).__name__ == "LogicalAnd":
@@ -387,11 +544,7 @@ def check(ctx):
     for z in api:
         jobs.append(("api:" + show_re(z), z, show_re(z), (A, B, C), 4, None))
     base = len(reqs)
-    for key, e, se, al, n, t in jobs:
-        alst = "[" + ",".join(map(str, al)) + "]"
-        reqs.append(f"auto {FUEL} {se} {n} {alst}")
-        reqs.append(f"langmany {se} {n} {alst}")
-        reqs.append(f"specmany {syn_enc(t)} {n} {alst}" if t is not None else f"langmany {se} {n} {alst}")
+    reqs += job_reqs(jobs)
 
     # vector scanners
     vec_cases = [({"identifier": "[a-z]+", "space": " +", "operator": "[=\\-\\+]", "number": "[0-9]+"}, "bla = 99 + fu- 1"),
@@ -438,95 +591,116 @@ def check(ctx):
                          {"tokens": spec, "text": text})
         reqs.append("scanvec %d %s %s" % (FUEL, ";".join(show_re(x[1]) for x in exprs), codes(text)))
 
+    # the property of every single smart-constructor call: languages of operands and result (Lean Spec matcher)
+    vec_end = len(reqs)
+    palst = "[" + ",".join(map(str, PAL)) + "]"
+    lang_idx = {}
+    for op, x, y, z in smart_calls:
+        for w in (x, y, z):
+            sw = show_re(w)
+            if sw not in lang_idx:
+                lang_idx[sw] = len(reqs)
+                reqs.append(f"langmany {sw} {PLEN} {palst}")
+
     out = ctx.driver("C31", reqs)
 
     # ---- compare pass 1 -------------------------------------------------------------------
-    for rq, i, m, (what, case) in zip(reqs[:base], expect, out[:base], meta):
+    follow = []      # calls on which model and implementation differ: the failing-input search follows them
+    for rq, i, m, (what, case), obj in zip(reqs[:base], expect, out[:base], meta, objs):
         ctx.count("eval_" + what.replace("=", "_"))
         if i != m:
             ctx.disagree(what, rq[:400], i[:400], m[:400])
+            if obj is not None and len(follow) < 40:
+                follow.append((what, obj))
         if i.startswith("err") or rq.count("(") >= 2:
             ctx.nontrivial(rq[:200])
 
     # ---- pass 2: the property on the real code ----------------------------------------------
-    k = base
-    for key, e, se, al, n, t in jobs:
-        m_auto, m_lang, m_spec = out[k:k + 3]
-        k += 3
-        if m_auto.startswith("ok "):
-            m_compile, m_acc, m_scan = m_auto.split(" | ")
-            m_acc, m_scan = "ok " + m_acc, "ok " + m_scan
-        else:
-            m_compile = m_acc = m_scan = m_auto
-        strs = all_strings(al, n)
-        diverges = m_compile == "err Fuel"
-        pr = attempt(R.compile, e, limit=FAST if diverges else SLOW)
-        ctx.count("eval_compile")
-        if nops(t) >= 2 if t is not None else True:
-            ctx.nontrivial("compile " + key)
-        i_compile = "ok " + show_prog(pr[1]) if pr[0] == "ok" else "err " + ("Fuel" if pr[1] in NORETURN else pr[1])
-        if i_compile != m_compile:
-            ctx.disagree("compile", key, i_compile[:300], m_compile[:300])
-        # the Lean specification of the tree vs. re.fullmatch (spec validation) and vs. the parsed object
-        spec_bits = m_spec[3:]
-        if t is not None:
-            rp = pyre.compile(re_render(t), pyre.S)
-            try:   # CPython's backtracking matcher explodes on nested loops such as (((a*)+)+)+
-                with time_limit(1.0):
-                    ref = "".join("1" if rp.fullmatch(s) else "0" for s in strs)
-                ctx.count("eval_spec_vs_re", len(strs))
-            except Budget:
-                ref = spec_bits
-                ctx.count("re_fullmatch_gave_up_backtracking")
-            if ref != spec_bits:
-                j = next(i for i in range(len(strs)) if ref[i] != spec_bits[i:i + 1])
-                ctx.disagree("spec-vs-re.fullmatch", {"tree": syn_enc(t), "string": strs[j]}, ref[j], spec_bits[j:j + 1])
-            if m_lang[3:] != spec_bits:
-                j = next(i for i in range(len(strs)) if m_lang[3 + i] != spec_bits[i])
-                ctx.fail("parse:language-differs-from-standard-reading",
-                         f"parse({key!r}) = {se} does not denote the standard language of the expression (string {strs[j]!r})",
-                         key, string=strs[j], parsed=se)
-                continue
-        lang = {s: c == "1" for s, c in zip(strs, spec_bits)}
-        if pr[0] != "ok":
-            if pr[1] in NORETURN:
-                ctx.fail("compile:does-not-return", f"compile({key!r}) does not return ({pr[1]})", key, how=pr[1])
-                ctx.nontrivial("noreturn " + key)
+    k = base + eval_jobs(ctx, R, jobs, out[base:])
+
+    # ---- every smart-constructor call denotes union / intersection / concatenation -------------
+    pstrs = all_strings(PAL, PLEN)
+
+    def check_smart(op, x, y, z, bx, by, bz):
+        ctx.count("eval_smart_language")
+        want = {"O": lambda: "".join("1" if p == "1" or q == "1" else "0" for p, q in zip(bx, by)),
+                "A": lambda: "".join("1" if p == "1" and q == "1" else "0" for p, q in zip(bx, by)),
+                "C": lambda: concat_bits(pstrs, bx, by)}[op]()
+        if bz != want:
+            j = next(i for i in range(len(pstrs)) if bz[i] != want[i])
+            fn, kind = SMART[op]
+            ctx.fail(f"{fn}:language-differs",
+                     f"{fn}({show_re(x)}, {show_re(y)}) = {show_re(z)} does not denote the {kind} of the operands' languages (string {pstrs[j]!r})",
+                     {"op": op, "x": show_re(x), "y": show_re(y)}, string=pstrs[j], result=show_re(z))
+
+    for op, x, y, z in smart_calls:
+        check_smart(op, x, y, z, *(out[lang_idx[show_re(w)]][3:] for w in (x, y, z)))
+
+    # ---- follow the disagreements: the property on the very call, and on small expressions built from its operands ----
+    if follow:
+        freqs, fjobs, fmeta, seen_txt = [], [], [], set()
+
+        def add_tree(t):
+            if t is None or nops(t) > 14:
+                return
+            txt = pp(0, t)
+            if txt in seen_txt:
+                return
+            seen_txt.add(txt)
+            r = attempt(R.parse, txt)
+            if r[0] == "ok":
+                fjobs.append((txt, r[1], show_re(r[1]), (A, B, C) if "c" in txt or "[" in txt else (A, B), 4 if "c" in txt or "[" in txt else 5, t))
             else:
-                ctx.fail(f"compile:raises-{pr[1]}", f"compile({key!r}) raised {pr[1]}", key)
-            continue
-        prog = pr[1]
-        bits = []
-        for s in strs:
-            try:
-                bits.append("1" if dfa_accepts(R, prog, s) else "0")
-            except Exception as ex:  # noqa
-                bits.append("R")
-                ctx.fail(f"accept:raises-{type(ex).__name__}", f"running the tables of {key!r} on {s!r} raised {type(ex).__name__}", key, string=s)
-        bits = "".join(bits)
-        ctx.count("eval_accept", len(strs))
-        if m_acc.startswith("ok") and bits != m_acc[3:]:
-            ctx.disagree("accepts", key, bits[:200], m_acc[3:203])
-        if bits != spec_bits:
-            j = next(i for i in range(len(strs)) if bits[i] != spec_bits[i:i + 1])
-            ctx.fail("accept:automaton-differs-from-language",
-                     f"compile({key!r}) {'accepts' if bits[j] == '1' else ('rejects' if bits[j] == '0' else 'fails on')} {strs[j]!r}, the expression does {'' if spec_bits[j] == '1' else 'not '}denote it",
-                     key, string=strs[j])
-        # scanner
-        sc_model = m_scan[3:].split(" ") if m_scan.startswith("ok") else None
-        for j, s in enumerate(strs):
-            tk, end = run_scan(R.scan(prog, s), s)
-            ctx.count("eval_scan")
-            got = show_scan(tk, end)
-            if sc_model is not None and got != sc_model[j]:
-                ctx.disagree("scan", {"regex": key, "text": s}, got, sc_model[j])
-            want = munch_oracle(lambda w: lang.get(w, False), s)
-            if (tk, end) != want:
-                sig = "scan:endless-empty-tokens" if end == "Endless" else ("scan:not-maximal-munch" if end in ("done", "ValueError") else f"scan:raises-{end}")
-                ctx.fail(sig, f"scan(compile({key!r}), {s!r}) = {tk} {end}, maximal munch gives {want[0]} {want[1]}", {"regex": key, "text": s})
-                break
+                ctx.fail("parse:rejects-supported-syntax", f"parse({txt!r}) raised {r[1]}", txt)
+
+        for what, obj in follow:
+            if what == "smart":
+                op, x, y, z = obj
+                for w in (x, y, z):
+                    fmeta.append(None)
+                    freqs.append(f"langmany {show_re(w)} {PLEN} {palst}")
+                fmeta[-3] = ("smart", obj)
+                tx, ty = re_to_syn(x), re_to_syn(y)
+                if tx and ty:
+                    comb = ("a", tx, ty) if op == "O" else ("t", tx, ty)
+                    for t in (comb, ("t", ("q", tx), ty), ("t", ("k", tx), ty), ("t", ("q", ty), tx), ("k", comb), ("t", comb, ("k", ty))):
+                        add_tree(t)
+            else:
+                x, c, dx = obj
+                for w in (x, dx):
+                    fmeta.append(None)
+                    freqs.append(f"langmany {show_re(w)} {PLEN} {palst}")
+                fmeta[-2] = ("deriv", obj)
+                tx = re_to_syn(x)
+                if tx:
+                    for t in (tx, ("q", tx), ("t", ("q", ("c", A)), tx), ("t", ("k", ("c", B)), tx), ("k", tx)):
+                        add_tree(t)
+        nl = len(freqs)
+        fout = ctx.driver("C31", freqs + job_reqs(fjobs))
+        j = 0
+        while j < nl:
+            kind, obj = fmeta[j]
+            if kind == "smart":
+                check_smart(*obj, fout[j][3:], fout[j + 1][3:], fout[j + 2][3:])
+                j += 3
+            else:
+                x, c, dx = obj
+                bx, bd = fout[j][3:], fout[j + 1][3:]
+                j += 2
+                ctx.count("eval_deriv_language")
+                if 0 <= c < 256 and c in PAL:
+                    pos = {w: i for i, w in enumerate(pstrs)}
+                    for w in pstrs:
+                        if len(w) < PLEN and bd[pos[w]] != bx[pos[chr(c) + w]]:
+                            ctx.fail("derivative:language-differs",
+                                     f"derivative({show_re(x)}, {chr(c)!r}) = {show_re(dx)}: {w!r} is {'' if bd[pos[w]] == '1' else 'not '}in its language but {chr(c) + w!r} is {'' if bx[pos[chr(c) + w]] == '1' else 'not '}in the expression's",
+                                     {"x": show_re(x), "c": c}, string=w)
+                            break
+        eval_jobs(ctx, R, fjobs, fout[nl:])
+        ctx.count("followed_disagreements", len(follow))
+
     # vector scanners: correspondence
-    for (spec, text), i, m in zip(vec_done, vec_impl, out[k:]):
+    for (spec, text), i, m in zip(vec_done, vec_impl, out[k:vec_end]):
         if i != m:
             ctx.disagree("scanvec", {"tokens": spec, "text": text}, i, m)
     ctx.sample({"regex": "a(b|c)d", "impl_parse": expect[1], "model_parse": out[1]})
